@@ -188,9 +188,7 @@ theorem goes1 (x : Instr) (h : (plainI x && !isJump x) = true) (a : Abs) :
   Goes.plain (by simp only [List.all_cons, h, List.all_nil, Bool.and_self]) a
 
 theorem plain_pushLit (v : Val) : (plainI (pushLit v) && !isJump (pushLit v)) = true := by
-  cases v <;> try rfl
-  rename_i o
-  cases o <;> rfl
+  rfl
 
 theorem goes_ctx (a : Abs) : Goes inR K [.ctx] (none, a) (none, pendA a) :=
   Goes.single (by simp [trU, isRoutine, transfer, pendA]) rfl rfl
